@@ -1406,7 +1406,7 @@ register_block_read_unsafe(RegisterTable *t, RegisterAddress addr,
             }
         } else {
             /* Memory that can't be read reads back zeroes */
-            memset(buf + offset, 0, sizeof(RegisterAtom) * readn);
+            memset(buf, 0, sizeof(RegisterAtom) * readn);
         }
 
         buf += readn;
